@@ -30,6 +30,16 @@ CHECKS = {
         "Trusted: E1's construction invariant for must-accept; definiteness of an injected error (closed expected type with a different head former at a checked position).",
         "DESIGN.md section 5, C03",
     ),
+    "C09": (
+        "reference-model monitor over the public session API: declared file graphs vs CompilerSession::graph (acyclicity, dedup, closed-walk cycle reports, provider order); textual inlining as the splice oracle",
+        "Graph families enumerate every import edge set on 3 implementation files with every companion combination (373 248 graphs) and on 4 files (65 536) in the thorough tier "
+        "(seeded samples in quick) plus random graphs with repeated imports, sub-directories, directly imported signatures and numbered inputs; a scratch-directory family covers relative, "
+        "dotted, absolute and symlinked spellings. Splice = inlining is decided by an independent textual inliner on the harness scanner: every import-bearing root under lib/ and docs/ "
+        "(258 roots, full and one-level inlining), generated programs split into files by five strategies (three-way with the reference evaluator), and generativity probes with fixed "
+        "expectations. Exploration; exhaustive only inside the stated graph sub-spaces.",
+        "Trusted: the harness scanner's recognition of import sites, the Floyd-Warshall reachability oracle, the filesystem's canonicalisation for the spelling family.",
+        "DESIGN.md section 5, C09",
+    ),
     "C10": (
         "crash/hang/location monitor: catch_unwind around CompilerSession::analyze and the CLI's diagnostic renderer in process, the real `zydeco check` out of process (exit status, signal, CPU budget), span-in-file check of every report",
         "Six input families (random bytes, token soups with extreme literals, token/byte mutations of every repository source, grammar-directed parse-valid terms with "
